@@ -18,7 +18,7 @@ RULE = (
 )
 REQUIRED = ["siphon_sets_checked", "trap_sets_checked", "enabled_contract_evals", "fire_contract_evals",
             "realizable_true", "realizable_false", "certificates_replayed", "catalyst_firings",
-            "networks_with_siphon_larger_than_2", "flows_needing_specific_order"]
+            "networks_with_siphon_larger_than_2", "flows_needing_specific_order", "analyzer_checked"]
 ASSUMPTIONS = [
     "realizability compared only for flows whose product of (flow+1) <= 10^4 (complete search on both sides, well inside the code's default bounds)",
     "max_size argument: expected = inclusion-minimal sets among those of size <= max_size",
@@ -139,6 +139,12 @@ def check_structure(ctx, net, tag="", via_graph=False):
             ctx.count(f"{name}_max_size_checked")
             if got2 != want2:
                 ctx.violation(name + "s-max-size", {**wit, "max_size": ms}, f"find_{name}s(max_size={ms}) -> {sorted(map(sorted, got2))} want {sorted(map(sorted, want2))}")
+    # the analyzer facade must report the same sets
+    from synkit.CRN.Petri.analyzer import PetriAnalyzer
+    an = PetriAnalyzer(obj).compute_siphons_traps()
+    ctx.count("analyzer_checked")
+    if {frozenset(x) for x in an.siphons} != minimal(sip) or {frozenset(x) for x in an.traps} != minimal(trp):
+        ctx.violation("analyzer", wit, f"PetriAnalyzer siphons/traps {an.siphons} / {an.traps} differ from the definitions")
     nontrivial = len(species) >= 2 and any(a and b for _, a, b in net)
     ctx.case(("struct", net, via_graph), nontrivial=nontrivial,
              sample={"space": tag, "reactions": W.fmt_net(net), "minimal_siphons": sorted(map(sorted, minimal(sip))),
